@@ -146,3 +146,65 @@ def random_points_scalar_limits(h):
     r, exc = h.call_raises(h.getattr(s, 'SetRandomInitialPoints'), a, b)
     h.check('raises-TypeError', 'ok', ok=(exc == 'TypeError'))
     h.check('population-untouched', 'same(s.population, pop) and seq_eq(pop[0], q[0]) and seq_eq(pop[1], q[1])', s=s, pop=pop, q=p00)
+
+
+@contract('C01/SetInitialPoints', ['C01', 'C08'], AS + '.SetInitialPoints', native=False)
+def set_initial_points(h):
+    """SetInitialPoints(x0): the guess itself is member 0 of the population (so it is evaluated and the best can never be
+    worse than it), the other members are drawn -- by SetRandomInitialPoints, whose contract is above -- from a box around
+    the guess that contains it (|x0[i]| * radius on each side, +-radius where x0[i] is 0), the caller's vector is not
+    modified; a guess of the wrong length is refused (two parameters; list, tuple or array; default and given radius)"""
+    if not h.is_sym():
+        h.unsupported('symbolic only')
+    form = h.choice('x0_given_as', ['list', 'array', 'wrong-length'])
+    rk = h.choice('radius', ['default', 'given', 'one-per-parameter', 'vector-of-wrong-length'])
+    zero0 = h.choice('x0_0_is_zero', [False, True])
+    a, b = (0.0 if zero0 else h.real('x0_0')), h.real('x0_1')
+    if not zero0:
+        h.assume('a != 0', a=a)
+    h.assume('b != 0', b=b)
+    rad = h.real('radius')
+    h.assume('rad > 0', rad=rad)
+    x0 = h.clist([a, b] if form != 'wrong-length' else [a, b, 1.0], nd=(form == 'array'))
+    p0, p1 = h.vec('old0', 2), h.vec('old1', 2)
+    pop = h.clist([p0, p1])
+    s = h.obj(AS, nDim=2, nPop=2, population=pop)
+    calls = []
+
+    def rnd(I, c, args, kwargs):
+        calls.append((args[1], args[2]))
+        for row in I.st.heap[I.st.heap[args[0]]['population']]:
+            I.st.heap[row] = [I.st.fresh('drawn', 'real'), I.st.fresh('drawn', 'real')]
+        return None
+    h.set_summaries({(A, 'AbstractSolver.SetRandomInitialPoints'): rnd})
+    rad1 = h.real('radius_1')
+    h.assume('rad1 > 0', rad1=rad1)
+    radarg = {'default': [], 'given': [rad], 'one-per-parameter': [h.clist([rad, rad1])], 'vector-of-wrong-length': [h.clist([rad, rad1, rad])]}[rk]
+    r, exc = h.call_raises(h.getattr(s, 'SetInitialPoints'), x0, *radarg)
+    if rk == 'vector-of-wrong-length' and form != 'wrong-length':
+        h.check('a-radius-vector-of-the-wrong-length-is-refused', 'ok', ok=(exc == 'ValueError' and not calls))
+        return
+    if form == 'wrong-length':
+        h.check('a-guess-of-the-wrong-length-is-refused', 'ok', ok=(exc == 'ValueError' and not calls))
+        return
+    h.check('no-exception', 'ok', ok=(exc is None))
+    if exc is not None:
+        return
+    R = 0.05 if rk == 'default' else rad
+    R1 = rad1 if rk == 'one-per-parameter' else R
+    e = dict(s=s, a=a, b=b, R=R, R1=R1, x0=x0)
+    h.check('the-guess-is-member-0-of-the-population', 's.population[0][0] == a and s.population[0][1] == b and len(s.population) == 2', **e)
+    h.check('the-callers-vector-is-not-modified', 'len(x0) == 2 and x0[0] == a and x0[1] == b', **e)
+    ok = len(calls) == 1
+    h.check('other-members-drawn-once-around-the-guess', 'ok', ok=ok)
+    if ok:
+        mn, mx = calls[0]
+        e.update(mn=mn, mx=mx)
+        # the code hands x0*(1-radius) as 'min' and x0*(1+radius) as 'max': for a negative coordinate the two are the other
+        # way round (random.uniform accepts either order), so 'contains' is stated order-free; radius >= 1 is left out
+        # (there x0*(1-radius) can be 0 for a nonzero coordinate and is replaced by -radius)
+        h.check('the-sampling-box-contains-the-guess',
+                'R >= 1 or R1 >= 1 or (min(mn[0], mx[0]) <= a and a <= max(mn[0], mx[0]) and min(mn[1], mx[1]) <= b and b <= max(mn[1], mx[1]))', **e)
+        h.check('the-sampling-box-is-the-radius-box',
+                'R >= 1 or R1 >= 1 or (mn[1] == b * (1 - R1) and mx[1] == b * (1 + R1)' +
+                (' and mn[0] == -R and mx[0] == R)' if zero0 else ' and mn[0] == a * (1 - R) and mx[0] == a * (1 + R))'), **e)
